@@ -66,7 +66,9 @@ func RegisterScenarioModules() {
 	py.RegisterModule(&py.ModuleImpl{Info: py.ModuleInfo{Name: "regsrc", FileDesc: "<regsrc>"}, CodeSrc: "val = \"rs\"\nlst = []\n"})
 }
 
-var eofSources = []string{"x = (\n", "if x:\n", "def f(a,\n", "s = \"\"\"abc\n", "v = [1,\n  2,\n", "class C:\n"}
+var eofSources = []string{"x = (\n", "if x:\n", "def f(a,\n", "s = \"\"\"abc\n", "v = [1,\n  2,\n", "class C:\n",
+	// rejected by the lexer with tokens already queued: a dedent to a column no enclosing block has, an unclosed bracket inside an indented block, a bad escape
+	"if x:\n        a = 1\n    b = 2\n", "def f():\n      return 1\n   x = 2\n", "def f():\n    return (1,\n", "class K:\n    @dec\n", "key = 'abc\\x4'\n"}
 
 // BadSources fail in the compiler proper (after parsing), each at its own line.
 var BadSources = []string{
